@@ -137,7 +137,7 @@ func Gen44(r *simcore.Rand, tier string) any {
 		p.Tape = r.Tape(40)
 		return p
 	}
-	huge := r.Bool(0.015)
+	huge := r.Bool(0.004)
 	p.MsgsAB = genMsgs(r, p.Snappy, huge && r.Bool(0.5))
 	p.MsgsBA = genMsgs(r, p.Snappy, huge && len(p.MsgsAB) == 0)
 	for d := 0; d < 2; d++ {
@@ -335,6 +335,7 @@ func sendable(m Msg44, snappy bool) bool {
 type sentRec struct {
 	msg        Msg44
 	start, end int // stream range written
+	payload    []byte
 	accepted   bool
 }
 
@@ -382,7 +383,7 @@ func Run44(t *testing.T, pl any) *simcore.Result {
 		stuck  string
 		log    = simcore.NewHash()
 	)
-	dl := simsched.Bubble(t, func() {
+	dl, pv := runBubble(t, func() {
 		start := time.Now()
 		sched = simsched.New(p.Tape, simsched.ModeWait)
 		ca, cb, wab, wba := NewSimConnPair(sched, "A", "B")
@@ -440,6 +441,9 @@ func Run44(t *testing.T, pl any) *simcore.Result {
 		cb.Close()
 		res.SimTimeNS = int64(time.Since(start))
 	})
+	if pv != nil {
+		return res.Fail(pv)
+	}
 	res.SchedFP = sched.FP()
 	res.Events = sched.Steps()
 	if dl != "" {
@@ -449,6 +453,7 @@ func Run44(t *testing.T, pl any) *simcore.Result {
 		simcore.Harnessf("C44 scheduler: %s", stuck)
 	}
 	for _, w := range []*wire{ab, ba} {
+		w.finalize()
 		for k, v := range w.fired {
 			res.Faults[k] += v
 		}
@@ -511,7 +516,7 @@ func writer44(sched *simsched.Sched, e *endpoint44, msgs []Msg44, snappy bool) {
 			e.viol = simcore.Violf("write-refused", "%s: Write(code=%d, %d bytes) within the limit failed: %v", e.name, m.Code, m.Size, err)
 			return
 		}
-		e.sent = append(e.sent, sentRec{msg: m, start: start, end: end, accepted: true})
+		e.sent = append(e.sent, sentRec{msg: m, start: start, end: end, accepted: true, payload: data})
 	}
 }
 
@@ -540,9 +545,9 @@ func reader44(sched *simsched.Sched, e, peer *endpoint44) {
 			return
 		}
 		m := peer.sent[e.recvN].msg
-		if code != m.Code || !bytes.Equal(data, payload44(m)) {
+		if same := bytes.Equal(data, peer.sent[e.recvN].payload); code != m.Code || !same {
 			e.viol = simcore.Violf("wrong-message-delivered", "%s read message #%d: code %d len %d, written was code %d len %d (payload equal: %v)",
-				e.name, e.recvN, code, len(data), m.Code, m.Size, bytes.Equal(data, payload44(m)))
+				e.name, e.recvN, code, len(data), m.Code, m.Size, same)
 			return
 		}
 		e.recvN++
